@@ -146,6 +146,13 @@ def generate(rng: Prng, tier: str) -> dict:
         p["api"] = "feature_forms"
     # a call that fails (or answers nonsense) on an inadmissible tree, in between: it must leave nothing behind
     p["poison"] = h2.choice(["nan_x_root", "nan_x_mid", "inf_x_last"]) if h2.chance(0.25) else None
+    # accuracy levels handed over as NumPy integers (`for a in np.arange(1, 5)`): level 1 is level 1
+    p["level_type"] = h2.choice(["int", "int", "int", "np.int64", "np.int32", "np.uint8"])
+    if kind != "arbitrary":
+        if p["scale"] == 1.0 and h2.chance(0.1):
+            p["scale"] = h2.choice([1.0 / 256, 1.0 / 1024, 1.0 / 128])  # small absolute units near the origin
+        if p["mc"] and h2.chance(0.5) and p["arm_b"]:
+            p["arm_b"][0] = list(p["arm_a"][0])  # mirror-image first compartments on either side of the root
     # the same solid laid out along mirrored / permuted directions, evaluated afterwards in the same process
     p["followup_axes"] = []
     if kind != "arbitrary" and not p["mc"] and h2.chance(0.35):
@@ -317,6 +324,9 @@ FORMS = ["kw", "tuple", "tuple_override", "tuple", "list", "dict", "tuple", "kw"
 
 
 def call_volume(tree, level, api: str, shared: dict) -> float:
+    lt = shared.get("level_type", "int")
+    if lt != "int" and isinstance(level, int):
+        level = getattr(np, lt.split(".")[1])(level)
     if api == "feature_forms":
         from swcgeom.analysis import extract_feature
 
@@ -414,7 +424,7 @@ def execute(program: dict) -> dict:
     with World() as world:
         try:
             tree = common.build_tree(t, source="gen")
-            shared: dict = {}
+            shared: dict = {"level_type": program.get("level_type", "int")}
             for ri, edit in enumerate(rounds):
               if violation:
                   break
@@ -423,7 +433,7 @@ def execute(program: dict) -> dict:
                   # session history: the same solid along another direction, a new tree object, same process
                   t, pos, axis, overlap, n = prepare(dict(program, axis=edit["axis"]))
                   tree = common.build_tree(t, source="gen")
-                  shared = {}
+                  shared = {"level_type": program.get("level_type", "int")}
                   schedules = program["schedules"][:1]
                   world.log("followup_axis", ri, [float.hex(float(v)) for v in edit["axis"]])
                   world.probe("c14.followup_tree_other_direction")
@@ -432,7 +442,7 @@ def execute(program: dict) -> dict:
                   new_r = f32(t["r"][i] * edit["factor"])
                   if edit["on"] == "copy":
                       tree = tree.copy()
-                      shared = {}
+                      shared = {"level_type": program.get("level_type", "int")}
                   tree.node(i).r = new_r
                   t["r"][i] = float(tree.node(i).r)
                   world.log("edit", ri, i, edit["on"], float.hex(t["r"][i]))
